@@ -679,7 +679,12 @@ class UnionUnmarshaller(AbstractUnmarshaller[UnionT], tp.Generic[UnionT]):
         super().__init__(t, context, var=var)
         self.stack = inspection.args(t, evaluate=True)
         if inspection.isoptionaltype(t):
-            self.stack = (self.stack[-1], *self.stack[:-1])
+            # Always check for `None` first, wherever it was declared.
+            # Every other member keeps its declared position.
+            self.stack = (
+                *(a for a in self.stack if inspection.isnonetype(a)),
+                *(a for a in self.stack if not inspection.isnonetype(a)),
+            )
 
         self.ordered_routines = [self.context[typ] for typ in self.stack]
 
